@@ -18,7 +18,8 @@ From Coq Require Import List NArith ZArith Bool.
 From Coq Require String.
 From Abasic Require Import Model.Bytes Model.Num Model.Token Model.Data Model.Lexer Gen.Tables
      Model.State Model.Eval Model.Interp Model.Analyzer Proofs.Monad Proofs.Frames Proofs.StoreProofs
-     Proofs.Safety Proofs.AnalyzerFrame Proofs.AnalyzerProofs Proofs.AgreeProofs Proofs.Caps Proofs.CheckSound Proofs.CheckAgree.
+     Proofs.Safety Proofs.AnalyzerFrame Proofs.AnalyzerProofs Proofs.AgreeProofs Proofs.Caps Proofs.CheckSound Proofs.CheckAgree Proofs.AnalyzerFns Proofs.AnalyzerSafety Proofs.AnalyzerTermination
+     Proofs.ProgSound.
 Import ListNotations.
 Local Open Scope nat_scope.
 
@@ -166,6 +167,78 @@ Theorem C06_executed_statement_is_not_rejected : forall f1 f2 nest rec arec t s 
   forall e l st, adispatch f2 nest arec t (sa, acc) <> (Err e l, st).
 Proof. exact executed_statement_is_not_rejected. Qed.
 
+(* WHOLE PROGRAMS (Proofs/ProgSound.v).  [analyze fuel text] is the checker on a
+   program text; [pass1_of' text] its first pass, whose [p_prog] holds the
+   stored program.  If the analysis reports no error (with the fuel the
+   totality theorem of C05 asks for) and no line of the program contains an
+   ELSE, INPUT or DEF token ([clean_program]), then from ANY idle interpreter
+   that holds this program and satisfies the typing invariant of C16, RUN and
+   EVERY turn of the run after it — programs that loop for ever included —
+   never fails with a syntax error, a type mismatch or a jump to an undefined
+   line ([benign]: the error is none of those).  IF..THEN nested to any depth,
+   GOTO, GOSUB / RETURN, FOR / NEXT, END, STOP, and every straight-line
+   statement are covered; the invariant of the run says that the cursor, every
+   return address and every loop start are positions from which the checker's
+   own walk over the rest of the line succeeds. *)
+Theorem C06_program_sound : forall fuel fi text,
+  line_bound text < fuel ->
+  forallb (fun msg => negb (is_error_msg msg)) (an_messages (analyze fuel text)) = true ->
+  clean_program (st_toks (p_prog (pass1_of' text))) ->
+  forall line s0, state s0 = Idle -> st_toks s0 = st_toks (p_prog (pass1_of' text)) ->
+    st_keys s0 = st_keys (p_prog (pass1_of' text)) ->
+    caps_inv s0 -> command_of line = Some CRun ->
+    match start_evaluating fi line s0 with
+    | (Ok _, s1) => forall s, Reach fi s1 s -> state s = Running -> turn_ok fi s
+    | (Err e _, _) => benign e
+    | _ => True
+    end.
+Proof. exact program_sound. Qed.
+
+(* its core: one turn from a state that satisfies the invariant *)
+Theorem C06_turn_sound : forall fa ptoks pkeys,
+  (forall n ts, toks_get n ptoks = Some ts -> clean_line ts = true) ->
+  (forall n, toks_get n ptoks <> None -> AccAt fa ptoks pkeys (mkloc (Some n) 0)) ->
+  (forall n, In n pkeys -> toks_get n ptoks <> None) ->
+  forall fi s, Inv fa ptoks pkeys s ->
+    match run_next_statement fi s with
+    | (Ok _, s') => Inv fa ptoks pkeys s'
+    | (Err e _, _) => benign e
+    | _ => True
+    end.
+Proof. exact turn_sound. Qed.
+
+(* non-vacuity: a program with a FOR loop, a subroutine and nested IFs is
+   accepted, is clean, an interpreter into which its lines were typed holds it
+   and satisfies the typing invariant — and RUN answers Ok *)
+Definition C06_prog_lines : list String.string :=
+  ["10 FOR I = 1 TO 3"; "20 GOSUB 100"; "30 NEXT I"; "40 IF I > 3 THEN IF I < 9 THEN PRINT ""done"""; "50 END";
+   "100 IF I > 1 THEN PRINT I : GOTO 120"; "110 A$ = ""one"" : PRINT A$"; "120 RETURN"]%string.
+Definition C06_prog_text : bytes := List.concat (map (fun l => bs l ++ [10%N]) C06_prog_lines).
+Definition C06_prog_state : interp := run_state 100 init_interp (map (fun l => HLine (bs l)) C06_prog_lines).
+
+Lemma clean_program_check T : forallb (fun kv => clean_line (snd kv)) T = true -> clean_program T.
+Proof.
+  induction T as [|[k v] T IH]; intros H n ts E; cbn [toks_get] in E; [discriminate E|].
+  cbn [forallb snd] in H. apply andb_prop in H as [H1 H2].
+  destruct (k =? n)%N; [injection E as <-; exact H1 | exact (IH H2 n ts E)].
+Qed.
+
+Example C06_program_example :
+  line_bound C06_prog_text < 200
+  /\ forallb (fun msg => negb (is_error_msg msg)) (an_messages (analyze 200 C06_prog_text)) = true
+  /\ clean_program (st_toks (p_prog (pass1_of' C06_prog_text)))
+  /\ state C06_prog_state = Idle
+  /\ st_toks C06_prog_state = st_toks (p_prog (pass1_of' C06_prog_text))
+  /\ st_keys C06_prog_state = st_keys (p_prog (pass1_of' C06_prog_text))
+  /\ caps_inv C06_prog_state
+  /\ fst (start_evaluating 200 (bs "RUN") C06_prog_state) = Ok tt.
+Proof.
+  split; [vm_compute; repeat constructor|]. split; [vm_compute; reflexivity|].
+  split; [apply clean_program_check; vm_compute; reflexivity|].
+  split; [vm_compute; reflexivity|]. split; [vm_compute; reflexivity|]. split; [vm_compute; reflexivity|].
+  split; [apply caps_reachable, caps_init | vm_compute; reflexivity].
+Qed.
+
 (* non-vacuity of the completeness direction: the checker REJECTS  1 + "x"  on
    a fresh state (so by the theorem the interpreter cannot evaluate it) and the
    interpreter indeed answers TYPE MISMATCH *)
@@ -206,3 +279,5 @@ Print Assumptions C06_expression_check_agrees.
 Print Assumptions C06_straight_statement_agrees.
 Print Assumptions C06_evaluated_expression_is_not_rejected.
 Print Assumptions C06_executed_statement_is_not_rejected.
+Print Assumptions C06_program_sound.
+Print Assumptions C06_turn_sound.
